@@ -84,6 +84,32 @@ def eq_sig(st, real_eq):
     return f"C16|eq|{real_eq.split(' ')[0]}|{c1}~{c2}|" + ','.join(diff)
 
 
+def origin_polygons(ctx):
+    """Polygons whose vertices were given relative to an origin are values like any other: copies are equal and independent,
+    a copy with changes differs in exactly the named fields."""
+    import numpy as np
+    from regions import PixCoord, PolygonPixelRegion, RegionMeta
+    n = 0
+    for ox, oy in ((140.0, 95.0), (-3.5, 2.25), (0.0, 7.0)):
+        for vs in (([0.0, 4, 2], [0.0, 0, 3]), ([1.5, 9, 9, 1.5], [2.0, 2, 6, 6])):
+            reg = PolygonPixelRegion(PixCoord(np.array(vs[0]), np.array(vs[1])), origin=PixCoord(ox, oy), meta=RegionMeta({'label': 'p'}))
+            want = (np.array(vs[0]) + ox, np.array(vs[1]) + oy)
+            case = {'vertices': vs, 'origin': [ox, oy]}
+            n += 1
+            ctx.case(('origin-polygon', ox, oy, len(vs[0])), True)
+            cp = reg.copy()
+            cp2 = cp.copy()
+            cm = reg.copy(meta=RegionMeta({'label': 'other'}))
+            ok_v = all(np.array_equal(np.asarray(r_.vertices.x), want[0]) and np.array_equal(np.asarray(r_.vertices.y), want[1]) for r_ in (reg, cp, cp2, cm))
+            if not ok_v or not (cp == reg and cp2 == reg) or cp.meta is reg.meta:
+                ctx.violation('C16|copy|PolygonPix|origin', 'copy() of a polygon built with origin= is not an equal independent region (vertices moved?)',
+                              dict(case, copy_vertices=[np.asarray(cp.vertices.x).tolist(), np.asarray(cp.vertices.y).tolist()]))
+            elif cm == reg or dict(cm.meta) != {'label': 'other'}:
+                ctx.violation('C16|copywith|PolygonPix|origin', 'copy(meta=...) of a polygon built with origin= does not differ in exactly the meta', case)
+    ctx.traces += n
+    ctx.note('origin_polygons', n)
+
+
 def run(ctx):
     quick = ctx.tier == 'quick'
     cat, cls = objs.catalogue(), objs.classes()
@@ -122,6 +148,7 @@ def run(ctx):
         ctx.traces += n
         ctx.note('copies_of_every_class', n)
     tlc.cleanup(res.workdir)
+    origin_polygons(ctx)
     lists.run(ctx, 'C16')
     ctx.assumptions += ['parameter values are catalogue tokens; pixel tolerance probed at 1e-7 (equal) and 1e-3 (different), not inside the asymmetric band of numpy.allclose',
                         'unit re-expression probed for deg/arcmin and arcmin/arcsec']
